@@ -212,7 +212,8 @@ _R12 = {
            'chooses a chunk header inside an emitter loop is cleared inside that loop. DIST-BELOW-FULL, PENDING-PAIR-DEC (see C06, C07).',
     'C03': ' SIZE-FIELD-TWIN, EMIT-LOOP-FLAGS (see C01). UNIT-RECORD (see C02).',
     'C02': ' UNIT-RECORD: per-unit counters of XZWriter / LZIPWriter are advanced inside the loop that can close the unit, and a size the '
-           'closer puts into the unit record comes from a counter that is reset per unit.',
+           'closer puts into the unit record comes from a counter that is reset per unit. VARINT-TWIN: the slice-based and the reader-based '
+           'multibyte-integer decoders reject under the same data-dependent conditions.',
     'C06': ' DIST-BELOW-FULL: LZDecoder::repeat reaches `pos - dist - 1` only under a guard that implies dist < full.',
     'C07': ' PENDING-PAIR-DEC: the LZ decoder stores the distance of a pending match on every path on which it stores its remaining length. '
            'COPYOUT-BEFORE-OK: every Ok result of BCJReader::read is built behind the step that copies buffered bytes to the caller (or for an empty buffer only).',
